@@ -46,6 +46,9 @@ package main
 
 import (
 	"bytes"
+	"encoding/base32"
+	"encoding/base64"
+	"encoding/hex"
 	"errors"
 	"fmt"
 	"io"
@@ -86,6 +89,66 @@ var typeKindNames = [...]string{"bool", "int", "uint", "float", "string", "slice
 
 func (k TypeKind) String() string { return typeKindNames[k] }
 
+// GTByte is a named byte type: []GTByte / [N]GTByte are NOT treated as byte strings by the v2
+// defaults (arshal_default.go:325-340), they behave as ordinary slices/arrays of numbers.
+type GTByte byte
+
+var rtGTByte = reflect.TypeOf(GTByte(0))
+
+// IsBytes reports whether t is a slice or array with element kind uint8 (the bytes arshaler).
+func (t *TypeDesc) IsBytes() bool {
+	return (t.Kind == TKSlice || t.Kind == TKArray) && t.Elem.Kind == TKUint && t.Elem.Bits == 8
+}
+
+// BytesAsString reports whether a value of the bytes type t is represented as a JSON string
+// (base64/base32/base16) under the given setting of FormatByteArrayAsArray, and with which format
+// ("base64" when no tag).  Named element types and format:array give the array representation.
+func (t *TypeDesc) BytesAsString(byteArrayAsArray bool) (string, bool) {
+	if !t.IsBytes() || t.Elem.Named || t.Format == "array" {
+		return "", false
+	}
+	if t.Format != "" {
+		return t.Format, true
+	}
+	if byteArrayAsArray && t.Kind == TKArray {
+		return "", false
+	}
+	return "base64", true
+}
+
+// InModel reports whether the type belongs to the universe of the Lean model (GoVal.lean): no
+// slice/array of a uint8-kind element, no format tags.
+func (t *TypeDesc) InModel() bool {
+	if t.IsBytes() || t.Format != "" || t.Named {
+		return false
+	}
+	if t.Elem != nil && !t.Elem.InModel() {
+		return false
+	}
+	for _, f := range t.Fields {
+		if !f.Type.InModel() {
+			return false
+		}
+	}
+	return true
+}
+
+// HasFormat reports whether some struct field carries a format tag (needs ExperimentalSupportFormatTag).
+func (t *TypeDesc) HasFormat() bool {
+	if t.Format != "" {
+		return true
+	}
+	if t.Elem != nil && t.Elem.HasFormat() {
+		return true
+	}
+	for _, f := range t.Fields {
+		if f.Type.HasFormat() {
+			return true
+		}
+	}
+	return false
+}
+
 // FieldDesc is one struct field: its JSON name (plain tag, no options) and type.
 type FieldDesc struct {
 	Name string
@@ -99,6 +162,9 @@ type TypeDesc struct {
 	N      int         // TKArray: length
 	Elem   *TypeDesc   // TKSlice, TKArray, TKMap, TKPtr
 	Fields []FieldDesc // TKStruct
+	// Outside the Lean model (only produced by GenTypeEx with Bytes set; see InModel):
+	Named  bool   // TKUint/8: the named element type GTByte instead of uint8
+	Format string // on a []byte / [N]byte node that is a struct field: the `format:` tag option ("" = none)
 
 	once   sync.Once
 	goType reflect.Type
@@ -150,6 +216,9 @@ func (t *TypeDesc) build() {
 		t.goType = rtInts[t.Bits]
 	case TKUint:
 		t.goType = rtUints[t.Bits]
+		if t.Named {
+			t.goType = rtGTByte
+		}
 	case TKFloat:
 		t.goType = rtFloat64
 	case TKString:
@@ -165,8 +234,11 @@ func (t *TypeDesc) build() {
 	case TKStruct:
 		sf := make([]reflect.StructField, len(t.Fields))
 		for i, f := range t.Fields {
-			sf[i] = reflect.StructField{Name: "F" + strconv.Itoa(i), Type: f.Type.GoType(),
-				Tag: reflect.StructTag(`json:"` + f.Name + `"`)}
+			tag := `json:"` + f.Name + `"`
+			if f.Type.Format != "" {
+				tag = `json:"` + f.Name + `,format:` + f.Type.Format + `"`
+			}
+			sf[i] = reflect.StructField{Name: "F" + strconv.Itoa(i), Type: f.Type.GoType(), Tag: reflect.StructTag(tag)}
 		}
 		t.goType = reflect.StructOf(sf)
 	case TKAny:
@@ -197,6 +269,9 @@ func (t *TypeDesc) writeWire(sb *strings.Builder) {
 		sb.WriteString("i" + strconv.Itoa(t.Bits))
 	case TKUint:
 		sb.WriteString("u" + strconv.Itoa(t.Bits))
+		if t.Named {
+			sb.WriteString("n") // outside the model, never sent to the oracle
+		}
 	case TKFloat:
 		sb.WriteString("f")
 	case TKString:
@@ -205,9 +280,15 @@ func (t *TypeDesc) writeWire(sb *strings.Builder) {
 		sb.WriteString("a")
 	case TKSlice:
 		sb.WriteString("L")
+		if t.Format != "" {
+			sb.WriteString(":" + t.Format)
+		}
 		t.Elem.writeWire(sb)
 	case TKArray:
 		sb.WriteString("R" + strconv.Itoa(t.N))
+		if t.Format != "" {
+			sb.WriteString(":" + t.Format)
+		}
 		t.Elem.writeWire(sb)
 	case TKMap:
 		sb.WriteString("M")
@@ -263,7 +344,33 @@ func GenType(r *rand.Rand, depth int) *TypeDesc {
 		depth = 4
 	}
 	budget := 40
-	return genType(r, depth, &budget)
+	return genType(r, depth, &budget, false)
+}
+
+// gtByteFormats are the `format:` options the bytes arshaler accepts.
+var gtByteFormats = []string{"base64", "base64url", "base32", "base32hex", "base16", "hex", "array"}
+
+// GenTypeEx is GenType over a wider universe when withBytes is set: also []byte, [N]byte (N = 0..5),
+// []GTByte, [N]GTByte at every position, and — on struct fields of those types — the format tags of
+// gtByteFormats.  Such types are outside the Lean model (TypeDesc.InModel() == false): callers must
+// not send them to the oracle, and must pass json.ExperimentalSupportFormatTag(true) when HasFormat().
+func GenTypeEx(r *rand.Rand, depth int, withBytes bool) *TypeDesc {
+	if depth > 4 {
+		depth = 4
+	}
+	budget := 40
+	return genType(r, depth, &budget, withBytes)
+}
+
+func genBytesType(r *rand.Rand) *TypeDesc {
+	e := tdUint(8)
+	if r.IntN(5) == 0 {
+		e.Named = true
+	}
+	if r.IntN(3) == 0 {
+		return tdSlice(e)
+	}
+	return tdArray(r.IntN(6), e)
 }
 
 func genScalarType(r *rand.Rand) *TypeDesc {
@@ -282,20 +389,26 @@ func genScalarType(r *rand.Rand) *TypeDesc {
 	}
 }
 
-func genType(r *rand.Rand, depth int, budget *int) *TypeDesc {
+func genType(r *rand.Rand, depth int, budget *int, withBytes bool) *TypeDesc {
 	*budget--
 	if depth <= 0 || *budget <= 0 {
+		if withBytes && r.IntN(100) < 25 {
+			return genBytesType(r)
+		}
 		if r.IntN(100) < 30 {
 			return tdAny
 		}
 		return genScalarType(r)
 	}
 	elem := func() *TypeDesc {
-		e := genType(r, depth-1, budget)
-		if e.Kind == TKUint && e.Bits == 8 {
+		e := genType(r, depth-1, budget, withBytes)
+		if e.Kind == TKUint && e.Bits == 8 && !withBytes {
 			e = tdUint(16) // []uint8 / [n]uint8 are the bytes arshaler
 		}
 		return e
+	}
+	if withBytes && r.IntN(100) < 22 {
+		return genBytesType(r)
 	}
 	switch x := r.IntN(100); {
 	case x < 20:
@@ -308,15 +421,19 @@ func genType(r *rand.Rand, depth int, budget *int) *TypeDesc {
 		n := r.IntN(4)
 		return tdArray(n, elem())
 	case x < 71:
-		return tdMap(genType(r, depth-1, budget))
+		return tdMap(genType(r, depth-1, budget, withBytes))
 	case x < 80:
-		return tdPtr(genType(r, depth-1, budget))
+		return tdPtr(genType(r, depth-1, budget, withBytes))
 	default:
 		nf := r.IntN(5)
 		perm := r.Perm(len(gtFieldNames))
 		var fs []FieldDesc
 		for i := 0; i < nf && *budget > 0; i++ {
-			fs = append(fs, FieldDesc{Name: gtFieldNames[perm[i]], Type: genType(r, depth-1, budget)})
+			ft := genType(r, depth-1, budget, withBytes)
+			if withBytes && ft.IsBytes() && !ft.Elem.Named && r.IntN(2) == 0 {
+				ft.Format = gtByteFormats[r.IntN(len(gtByteFormats))]
+			}
+			fs = append(fs, FieldDesc{Name: gtFieldNames[perm[i]], Type: ft})
 		}
 		return tdStruct(fs...)
 	}
@@ -1185,7 +1302,88 @@ func MergeJSON(a, b []byte) []byte {
 type jsonGen struct {
 	r      *rand.Rand
 	buf    []byte
-	budget int // remaining nodes; containers shrink when it runs out
+	budget int  // remaining nodes; containers shrink when it runs out
+	baa    bool // texts are meant for FormatByteArrayAsArray(true)
+}
+
+// GenJSONForBytes is GenJSONFor for types of GenTypeEx: a []byte / [N]byte in string representation
+// gets a string in its encoding (base64 by default, else the field's format) of 0..N+2 random bytes
+// (arrays: mostly exactly N, else shorter or longer), sometimes with a flaw (missing padding, a
+// character outside the alphabet); byteArrayAsArray says that the texts are meant for
+// jsonv1.FormatByteArrayAsArray(true), where an untagged [N]byte is a JSON array of numbers.
+func GenJSONForBytes(r *rand.Rand, t *TypeDesc, depth int, byteArrayAsArray bool) []byte {
+	if depth > 3 {
+		depth = 3
+	}
+	g := &jsonGen{r: r, budget: 40, baa: byteArrayAsArray}
+	g.ws()
+	g.value(t, depth)
+	g.ws()
+	return g.buf
+}
+
+// EncodeBytesFormat encodes b the way the bytes arshaler represents it under format f.
+func EncodeBytesFormat(f string, b []byte) string {
+	switch f {
+	case "base64url":
+		return base64.URLEncoding.EncodeToString(b)
+	case "base32":
+		return base32.StdEncoding.EncodeToString(b)
+	case "base32hex":
+		return base32.HexEncoding.EncodeToString(b)
+	case "base16", "hex":
+		return hex.EncodeToString(b)
+	}
+	return base64.StdEncoding.EncodeToString(b)
+}
+
+// DecodeBytesFormat is the independent reference decoder (standard library, strict padding).
+func DecodeBytesFormat(f string, s string) ([]byte, error) {
+	switch f {
+	case "base64url":
+		return base64.URLEncoding.DecodeString(s)
+	case "base32":
+		return base32.StdEncoding.DecodeString(s)
+	case "base32hex":
+		return base32.HexEncoding.DecodeString(s)
+	case "base16", "hex":
+		return hex.DecodeString(s)
+	}
+	return base64.StdEncoding.DecodeString(s)
+}
+
+func (g *jsonGen) bytesString(t *TypeDesc, f string) {
+	n := g.r.IntN(7)
+	if t.Kind == TKArray {
+		n = t.N
+		switch x := g.r.IntN(100); {
+		case x < 25:
+			n = g.r.IntN(t.N + 1)
+		case x < 40:
+			n = t.N + 1 + g.r.IntN(2)
+		}
+	}
+	b := make([]byte, n)
+	for i := range b {
+		b[i] = byte(g.r.IntN(256))
+		if g.r.IntN(4) == 0 {
+			b[i] = 0
+		}
+	}
+	s := EncodeBytesFormat(f, b)
+	if g.r.IntN(25) == 0 && len(s) > 0 {
+		switch g.r.IntN(3) {
+		case 0:
+			s = strings.TrimRight(s, "=")
+		case 1:
+			s = s[:len(s)-1] + "!"
+		default:
+			s = s + "\\n"
+		}
+	}
+	g.buf = append(g.buf, '"')
+	g.buf = append(g.buf, s...)
+	g.buf = append(g.buf, '"')
 }
 
 // GenJSONFor produces a syntactically valid JSON text that mostly fits type t: per node ~10% `null`,
@@ -1428,6 +1626,9 @@ func jsonKindOf(t *TypeDesc) byte {
 	case TKString:
 		return '"'
 	case TKSlice, TKArray:
+		if t.IsBytes() {
+			return 0 // string or array depending on tags/options: no "wrong kind" draw
+		}
 		return '['
 	case TKMap, TKStruct:
 		return '{'
@@ -1503,12 +1704,20 @@ func (g *jsonGen) value(t *TypeDesc, depth int) {
 		g.budget++
 		g.valueNoNull(t.Elem, depth)
 	case TKSlice:
+		if f, ok := t.BytesAsString(g.baa); ok {
+			g.bytesString(t, f)
+			return
+		}
 		n := g.r.IntN(5)
 		if g.budget <= 0 {
 			n = g.r.IntN(2)
 		}
 		g.array(t.Elem, n, depth)
 	case TKArray:
+		if f, ok := t.BytesAsString(g.baa); ok {
+			g.bytesString(t, f)
+			return
+		}
 		n := t.N
 		switch x := g.r.IntN(100); {
 		case x < 12:
